@@ -100,6 +100,72 @@ def _run_shard(args):
     return res
 
 
+def _shard_child(w, conn):
+    try:
+        conn.send(_run_shard(w))
+    finally:
+        conn.close()
+
+
+def _lost_shard(w, why, inconclusive):
+    from bv import core
+
+    pid, tier, seed, spec, known, budget_s = w
+    ctx = core.Ctx(pid, tier, seed, shard=spec.get("shard", 0), known=known, budget_s=budget_s)
+    res = ctx.result()
+    res["error"] = None if inconclusive else why
+    if inconclusive:
+        res["budget_exhausted"] = True
+        res["notes"] = list(res["notes"]) + [why]
+    return res
+
+
+def _run_supervised(work, jobs, hard_limit_s):
+    """One forked process per shard, at most `jobs` at a time.  Unlike multiprocessing.Pool.map this cannot hang: a
+    shard whose process dies without a result (killed by the system under memory pressure, say) is started once more
+    and is a harness error if it dies again; a shard that runs past the hard wall limit (three times the tier's
+    budget plus ten minutes - the checks stop themselves at the budget) is killed and counted as inconclusive,
+    never as a violation."""
+    from multiprocessing.connection import wait
+
+    mp = multiprocessing.get_context("fork")
+    results = [None] * len(work)
+    attempts = [0] * len(work)
+    pending = list(range(len(work)))
+    running = {}
+    while pending or running:
+        while pending and len(running) < jobs:
+            i = pending.pop(0)
+            r, w = mp.Pipe(duplex=False)
+            p = mp.Process(target=_shard_child, args=(work[i], w))
+            p.start()
+            w.close()
+            attempts[i] += 1
+            running[i] = (p, r, time.time())
+        ready = wait([r for (_p, r, _t) in running.values()], timeout=1.0)
+        for i, (p, r, t_start) in list(running.items()):
+            if r in ready:
+                try:
+                    results[i] = r.recv()
+                except (EOFError, OSError):
+                    results[i] = None
+                p.join()
+                r.close()
+                del running[i]
+                if results[i] is None:
+                    if attempts[i] < 2:
+                        pending.append(i)
+                    else:
+                        results[i] = _lost_shard(work[i], "shard %d: its process ended twice without a result (exit code %r)" % (i, p.exitcode), False)
+            elif time.time() - t_start > hard_limit_s:
+                p.kill()
+                p.join()
+                r.close()
+                del running[i]
+                results[i] = _lost_shard(work[i], "shard %d stopped at the hard wall limit of %d s: inconclusive" % (i, hard_limit_s), True)
+    return results
+
+
 def _safe_name(key):
     return re.sub(r"[^A-Za-z0-9_.=+-]+", "_", key)[:120].strip("_") or "case"
 
@@ -170,9 +236,7 @@ def main():
     if jobs == 1 or len(specs) == 1:
         results = [_run_shard(w) for w in work]
     else:
-        mp = multiprocessing.get_context("fork")
-        with mp.Pool(jobs, maxtasksperchild=1) as pool:
-            results = pool.map(_run_shard, work, chunksize=1)
+        results = _run_supervised(work, jobs, hard_limit_s=3 * budget + 600)
 
     errors = [r["error"] for r in results if r["error"]]
     # merge
